@@ -18,6 +18,7 @@
 """
 from __future__ import annotations
 
+import ast
 from typing import Dict, List, Optional
 
 from ..costlib import cost_specs, layer_map
@@ -396,6 +397,65 @@ def tuple_elems(t: Term) -> Optional[List[Term]]:
     return None
 
 
+def uniquify_rule(ctx, rule: str):
+    """Shared metrics (parameters) count a layer once however often, and on whatever tensor
+    shapes, it is invoked: uniquify_leaf_modules is interpreted (finite interpreter) on a list
+    in which one module appears at three call sites with two different output shapes; the
+    result must keep exactly the first entry of each module name, in order."""
+    from ..mini import Mini, Obj, Raised, Unsupported
+    repo = ctx.repo
+    fn = repo.fn('inspection.uniquify_leaf_modules')
+
+    def node(shape):
+        o = Obj('Node')
+        tm = Obj('TensorMeta')
+        tm.attrs['shape'] = shape
+        o.attrs.update({'meta': {'tensor_meta': tm} if shape is not None else {}})
+        return o
+    L1, L2 = Obj('Layer'), Obj('Layer')
+    world = [('blk.conv', node((2, 4, 8, 8)), L1), ('blk.conv', node((2, 4, 4, 4)), L1),
+             ('head', node((2, 10)), L2), ('blk.conv', node((2, 4, 8, 8)), L1),
+             ('head', node(None), L2)]
+
+    class _U(Mini):
+        def expr(self, e, env):
+            if isinstance(e, ast.Attribute):
+                o = self.expr(e.value, env)
+                if isinstance(o, Obj):
+                    return o.attrs[e.attr] if e.attr in o.attrs else ('boundmethod', o, e.attr)
+                return ('boundmethod', o, e.attr)
+            return super().expr(e, env)
+
+        def builtin(self, name, args, kwargs, node_):
+            if name == 'getattr':
+                o = args[0]
+                if isinstance(o, Obj) and args[1] in o.attrs:
+                    return o.attrs[args[1]]
+                if len(args) > 2:
+                    return args[2]
+                raise Raised('AttributeError', node_)
+            if name == 'id':
+                return id(args[0])
+            return super().builtin(name, args, kwargs, node_)
+    try:
+        res = _U({}).call_function(fn.node, [list(world)])
+    except (Unsupported, Raised) as ex:
+        raise AnalysisError(f'{rule}: uniquify_leaf_modules is outside the interpreted subset: {ex}')
+    try:
+        got = [(r[0], any(r[1] is w[1] for w in world[:1] + world[2:3])) for r in list(res)]
+    except Exception:       # noqa: BLE001
+        got = None
+    want = [('blk.conv', True), ('head', True)]
+    ok = got == want
+    ctx.ob(rule, 'uniquify_leaf_modules keeps one entry per module', ok,
+           'first call site of each module name, in order' if ok else
+           f'for a module invoked at three call sites (two output shapes) and another at two, the '
+           f'result is {[g[0] for g in got] if got is not None else res}: a shared metric '
+           f'(parameters) counts a layer invoked on two resolutions twice (and a choice block '
+           f'four times: once per entry at top level times once per entry inside the combiner)',
+           where(fn))
+
+
 def lookup_key_rule(ctx, rule: str, wname: str):
     """Cost-function selection: every CostSpec lookup of _single_cost_fn_map uses the key
     (layer type, vars(layer)) -- the STATIC attributes of the layer.  Pattern constraints
@@ -583,6 +643,7 @@ def run(ctx):
     r04c(ctx)
     r04d(ctx)
     leaf_lists_rule(ctx, 'R04h', 'PIT')
+    uniquify_rule(ctx, 'R04h')
     # the spec values are handed out by reference (a features calculator returns its buffer):
     # no registered cost function writes its spec or updates a value in place (= C12 R12b)
     from . import c12
